@@ -113,7 +113,10 @@ class ExpressionEvaluator:
         except SyntaxError as exc:  # pragma: no cover - simple propagation
             raise ExpressionError(f"Invalid expression syntax: {exc.msg}") from exc
         _SafeVisitor(allowed_names).visit(tree)
-        code = compile(tree, filename="<expr>", mode="eval")
+        try:
+            code = compile(tree, filename="<expr>", mode="eval")
+        except SyntaxError as exc:
+            raise ExpressionError(f"Invalid expression syntax: {exc.msg}") from exc
 
         def _fn(**kwargs: Any) -> Any:
             return eval(code, self.env, kwargs)
